@@ -379,8 +379,12 @@ class CFG:
 
         def skip(a, b, label):
             if a.kind in ("if", "while") and label in ("true", "false"):
-                t = unparse(a.ast.test)
-                if t in amap and amap[t] != (label == "true"):
+                test, want = a.ast.test, label == "true"
+                # `if not X` going one way is `if X` going the other
+                while isinstance(test, ast.UnaryOp) and isinstance(test.op, ast.Not):
+                    test, want = test.operand, not want
+                t = unparse(test)
+                if t in amap and amap[t] != want:
                     return True
             return False
 
@@ -392,11 +396,20 @@ class CFG:
         import ast as _ast
 
         assigned = set()
+        stores = {}
         body = self.func.body if hasattr(self.func, "body") else list(self.func)
         for st in body:
             for n in _ast.walk(st):
                 if isinstance(n, _ast.Name) and isinstance(n.ctx, (_ast.Store, _ast.Del)):
                     assigned.add(n.id)
+                    stores[n.id] = stores.get(n.id, 0) + 1
+        # a local bound exactly once, by a plain top-level statement of the function (not inside a loop or branch), keeps
+        # its value from there on: a test on it is as stable as a test on a parameter (`has_x = x is not None`)
+        once = set()
+        for st in body:
+            if isinstance(st, _ast.Assign) and len(st.targets) == 1 and isinstance(st.targets[0], _ast.Name) and stores.get(st.targets[0].id) == 1:
+                once.add(st.targets[0].id)
+        assigned -= once
         out = []
         for test, pol in self.guards(node):
             names = {n.id for n in _ast.walk(test) if isinstance(n, _ast.Name)}
